@@ -52,6 +52,7 @@ ASSUMPTIONS = [
     'published UNIFAC values is not part of the property and not claimed',
 ]
 TOLERANCES = {
+    'returned_array_is_the_callers': 'after in-place modification of returned arrays the next evaluation is bit-identical / exactly one',
     'vertex_abs': 1e-9, 'near_vertex_abs (x_i = 1-1e-9)': 1e-7, 'permutation_rel': 1e-10, 'functional_form_rel': 1e-12,
     'gibbs_duhem_rel (of sum x_k |dln gamma_k/ds|)': 1e-5, 'gibbs_duhem_abs_floor': 1e-9, 'gibbs_duhem_step_h': 2.0 ** -10,
     'history_vs_fresh_rel': 1e-12, 'purity': 'bit-identical', 'nogroup': 'exactly 1.0',
@@ -330,6 +331,15 @@ class Grid(System):
             if not np.array_equal(g1, g3):
                 raise Violation('not-repeatable', f'{model}{ids}: two consecutive calls at x={list(x)}, T={T} gave {g1.tolist()} and {g3.tolist()}',
                                 match=dict(model=model))
+            # a returned array is the caller's: overwriting it in place must not influence the next evaluation
+            keep = g1.copy()
+            for arr in (g1, g3):
+                if isinstance(arr, np.ndarray) and arr.flags.writeable and arr.ndim: arr[...] = -7.0
+            g4 = _call(obj, x, T, model, 'call', pattern=pat)
+            if not np.array_equal(keep, g4):
+                raise Violation('result-aliased', f'{model}{ids}: after the caller overwrote the returned arrays in place the next call at x={list(x)}, T={T} '
+                                f'gave {g4.tolist()} instead of {keep.tolist()}', match=dict(model=model))
+            g1 = keep
             # an un-normalised argument (2*x) must be left alone as well (in-place normalisation would not show on sum(x) == 1)
             xc = 2.0 * np.array(x, float); before2 = xc.tobytes()
             try:
@@ -504,6 +514,75 @@ class Ideal(System):
     def outcome(self, st, a, obs): return repr((a[0], len(st.ids)))
 
 
+class IdealHistory(System):
+    """Sequences of evaluations of ONE instance of each ideal model (and of group models that fall back to the ideal one) with the
+    caller modifying every returned array in place between the calls.  A returned array is the caller's: the next evaluation must
+    still return ones and every array returned earlier must keep what the caller wrote into it."""
+    name = 'c16.ideal.history'
+    nontrivial_per_config = True
+    TUPLES = [('Water', 'Ethanol'), ('Ethanol', 'Water', 'Methanol')]
+    XS = {2: [(0.25, 0.75), (1.0, 0.0)], 3: [(0.5, 0.25, 0.25), (0.0, 0.5, 0.5)]}
+
+    def warm(self): _load()
+    def reset_globals(self): clear_interned()
+    def depth(self, tier): return 3
+    def configs(self, tier, seed): return [(t,) for t in self.TUPLES]
+
+    def build(self, config):
+        ids = config[0]
+        tmo = fx.tmo(); eq = tmo.equilibrium; ac = _load()
+        chems = _chemicals('Ideal', ids)
+        st = type('St', (), {})()
+        st.ids = ids
+        st.objs = {
+            'gamma': eq.IdealActivityCoefficients(chems),
+            'fallback.dortmund': ac.DortmundActivityCoefficients((chems[0], _chems[('std', 'N2')]) + ((_chems[('std', 'NaCl')],) if len(ids) == 3 else ())),
+            'fallback.unifac': ac.UNIFACActivityCoefficients((_chems[('std', 'NaCl')], chems[1]) + ((_chems[('std', 'N2')],) if len(ids) == 3 else ())),
+            'phi': eq.IdealFugacityCoefficients(chems),
+            'pcf': eq.MockPoyintingCorrectionFactors(chems),
+        }
+        st.held = []      # (which, returned object, snapshot of what the caller left in it)
+        st.info = None
+        return st
+
+    def canon(self, st):
+        return (st.ids, tuple((w, tuple(np.asarray(snap, float).ravel().tolist())) for w, r, snap in st.held),
+                tuple(sorted((w, type(o).__name__) for w, o in st.objs.items())))
+
+    def actions(self, st):
+        n = len(st.ids)
+        return [(w, via, xi, mut) for w in st.objs for via in (('call', 'f') if w != 'pcf' else ('call',)) for xi in range(len(self.XS[n]))
+                for mut in ('scale', 'fill')]
+
+    def step(self, st, a):
+        w, via, xi, mut = a
+        obj = st.objs[w]; n = len(st.ids)
+        x = np.array(self.XS[n][xi], float); T = 300.0; P = 101325.0
+        try:
+            if w == 'phi': r = obj(x, T, P) if via == 'call' else obj.f(x, T, P, *obj.args)
+            elif w == 'pcf': r = obj(T, P, np.ones(n))
+            else: r = obj(x, T) if via == 'call' else obj.f(x, T, *obj.args)
+        except Exception as e:
+            raise _unexpected(e, 'Ideal', w)
+        v = np.asarray(r, float)
+        st.info = v
+        if not np.all(v == 1.0) or (w in ('gamma', 'fallback.dortmund', 'fallback.unifac') and via == 'call' and v.shape != (n,)):
+            raise Violation('ideal-not-one', f'{type(obj).__name__}{st.ids} via {via}: returned {v.tolist()} after the caller modified {len(st.held)} earlier result(s) in place',
+                            match=dict(which=w, via=via))
+        for w0, r0, snap in st.held:
+            if isinstance(r0, np.ndarray) and not np.array_equal(r0, snap):
+                raise Violation('result-aliased', f'{w0}{st.ids}: an array returned earlier and modified by the caller to {snap.tolist()} now reads {r0.tolist()} '
+                                f'(after a later {w}.{via})', match=dict(which=w0))
+        if isinstance(r, np.ndarray) and r.ndim and r.flags.writeable:
+            if mut == 'scale': r *= x          # e.g. gamma *= x  (activities)
+            else: r[...] = 7.0
+        st.held.append((w, r, np.array(r, float).copy()))
+        return ('one', w, via, mut)
+
+    def nontrivial(self, st, a, obs): return len(st.held) >= 2
+    def outcome(self, st, a, obs): return repr(obs)
+
+
 # ---- history layer -----------------------------------------------------------------------------------
 
 class History(System):
@@ -601,11 +680,13 @@ class History(System):
         with isolated():
             twin = _gamma(model, ids)
             ref = self._eval(twin, via, x, T, model)
-        st.info = g
-        if g.shape != ref.shape or not np.allclose(g, ref, rtol=1e-12, atol=0, equal_nan=True):
-            raise Violation('history-dependent', f'{model}{ids} via {via} at x={list(x)}, T={T}: after earlier calls/requests {g.tolist()}, fresh object {ref.tolist()}',
+        st.info = g.copy()
+        bad = g.shape != ref.shape or not np.allclose(g, ref, rtol=1e-12, atol=0, equal_nan=True)
+        if isinstance(g, np.ndarray) and g.ndim and g.flags.writeable: g[...] = -7.0     # a returned array is the caller's
+        if bad:
+            raise Violation('history-dependent', f'{model}{ids} via {via} at x={list(x)}, T={T}: after earlier calls/requests {st.info.tolist()}, fresh object {ref.tolist()}',
                             match=dict(model=model, via=via, requested='reversed' if k >= 2 else 'base'))
-        return (via, k, _sig(g))
+        return (via, k, _sig(st.info))
 
     def nontrivial(self, st, a, obs):
         return st.info is not None and bool(np.any(np.abs(st.info - 1.0) > 1e-6))
@@ -657,6 +738,7 @@ def den_quarter(tier, n): return 4
 
 SYSTEMS = [
     Ideal(),
+    IdealHistory(),
     History(),
     Grid('c16.grid', sets_core, den_small),
     Grid('c16.grid.nogroup', sets_nogroup, den_quarter),
